@@ -7,6 +7,19 @@ for f in sorted(glob.glob(V + "/known_findings.d/*.json")):
     ents += json.load(open(f))
 log = subprocess.run(["git", "-C", "/repo", "log", "--format=%h %s", "--reverse"], capture_output=True, text=True).stdout.splitlines()
 fixes = [l for l in log if l.split(" ", 1)[1].startswith("fix:")]
+# ---- 9.1 status per property (from MANIFEST + committed evidence) ----
+man = json.load(open(V + "/MANIFEST.json"))
+print("### 9.1 Status per property (quick tier, seed 1, from the committed evidence files)\n")
+print("| id | parts | level | evaluations | distinct non-trivial | inconclusive | out of domain | known keys observed | wall s |\n|---|---|---|---|---|---|---|---|---|")
+for c in man["checks"]:
+    pid = c["property_id"]
+    try:
+        ev = json.load(open(V + "/evidence/%s.json" % pid))
+        cov = ev["coverage"]
+        print("| %s | %s | %s | %d | %d | %d | %d | %d | %.0f |" % (pid, "+".join(sorted(cov.get("parts", {}))), ev["level"], cov["evaluations"], cov["distinct_nontrivial"], cov.get("inconclusive", 0), cov.get("out_of_domain", 0), len(cov.get("known_findings_observed", [])), ev["wall_s"]))
+    except Exception as e:
+        print("| %s | (no evidence file: %s) |" % (pid, e))
+print()
 print("### 9.3 `fix:` commits in /repo (%d)\n" % len(fixes))
 print("| commit | message | found by (property: key) |\n|---|---|---|")
 for l in fixes:
